@@ -25,6 +25,12 @@ int main(int argc, char** argv) {
     int order = (int)c.geti("order", 1);
     GaussianShell A = make_shell(c.shells[0]);
     GaussianShell B = make_shell(c.shells[1]);
+    if (c.geti("mutate", 0) == 1) {
+      // the shells are modified through their public members after construction (a renormalised contraction, rescaled exponents;
+      // exponents only grow, so min_exp stays a lower bound)
+      for (int i = 0; i < A.nprimitive(); i++) { A.coeffs[i] *= 1.7 + 0.31 * i; A.exps[i] *= 1.05 + 0.02 * i; }
+      for (int i = 0; i < B.nprimitive(); i++) { B.coeffs[i] *= 0.6 + 0.23 * i; B.exps[i] *= 1.03 + 0.04 * i; }
+    }
     ECP U = make_ecp(c.ecps[0]);
     int LA = A.am(), LB = B.am();
     int maxLB = std::max(LA, LB);
